@@ -83,7 +83,7 @@ Bits1001 == [n |-> 4, b |-> <<144>>]
 
 OtherTd(td) == CASE td = "E" -> "A" [] td = "I" -> "E" [] td = "A" -> "I"
 
-NSeeds == 9
+NSeeds == 10
 TOctsU == [k |-> "OCTS", tags |-> <<>>, sz |-> NoSz]
 TBitsU == [k |-> "BITS", tags |-> <<>>, sz |-> NoSz, nb |-> <<>>]
 RefSz(n, lb, ub) == [k |-> "REF", tags |-> <<>>, name |-> n, sz |-> [f |-> "R", lb |-> lb, ub |-> ub, ubinf |-> FALSE, ext |-> FALSE]]
@@ -158,6 +158,12 @@ Seed(k, td) ==
        Asg("Fr", TSeq(<< Mand("id", Ref("Id")), Mand("fl", Ref("Fl")), Opt("k", TBool) >>)),
        Asg("Top", TSeq(<< Mand("a", Ref("Fr")), Mand("b", Ref("Fx")), Mand("id", Ref("Id")),
                           Mand("l", ListOf(RefSz("Id", 0, 2))) >>)) >>) >>]
+   [] k = 10 ->   \* DEFAULT of a type reached through two reference hops in another module; only the first name is imported
+    [mods |-> << Mod("A", td, << Imp("Bm", <<"Key", "Flg">>) >>, <<
+                   Asg("Top", TSeq(<< Def("k", Ref("Key"), <<171, 205>>), Def("f", Ref("Flg"), Bits1001),
+                                      Mand("z", TIntR(0, 255)) >>)) >>),
+                 Mod("Bm", td, <<>>, <<
+                   Asg("Key", Ref("Octs")), Asg("Octs", TOctsU), Asg("Flg", Ref("Bs4")), Asg("Bs4", TBitsN) >>) >>]
 
 ------------------------------------------------------------------------------
 (* positions inside a descriptor: paths of <<"r", i>> (root component i of a *)
